@@ -363,13 +363,4 @@ theorem qElems_ok : ∀ (xs : List Atom) (ts : List Text), atomTexts xs = some t
         cases h
         simp [qElems, qElem, ha, qElems_ok as ts' hs]
 
-/-- with an empty cache the memoised joiner is the plain one -/
-theorem routeSuffixMemo_nil (path : Text) (elems : List Atom) :
-    (routeSuffixMemo [] path elems).1 = routeSuffix path elems := by
-  unfold routeSuffixMemo routeSuffix joinElementsMemo
-  by_cases he : elems = []
-  · simp [he]
-  · simp only [he, if_false, List.lookup]
-    cases qElems elems <;> rfl
-
 end Pyr.UrlGen
